@@ -162,9 +162,9 @@ void h_add_item (void) {
   curr_module = &vp_mod; DLIST_INIT (MIR_item_t, vp_mod.items);
   int have = nondet_int () != 0, te = nondet_int (), tn = nondet_int ();
   __CPROVER_assume (te == MIR_import_item || te == MIR_export_item || te == MIR_forward_item || te == MIR_proto_item || te == MIR_func_item);
-  /* a NEW prototype/data/bss item is not covered: CBMC loses the pointer-valued field u.<kind>->name when it is read through
-     the item union by pointer (value-set imprecision, spurious failure); an EXISTING prototype is covered */
-  __CPROVER_assume (tn == MIR_import_item || tn == MIR_export_item || tn == MIR_forward_item || tn == MIR_func_item); /* definitions are represented by function items (same switch arm for data/bss) */
+  /* a NEW prototype or bss item is covered through staging op deunion (CBMC loses u.<kind>->name read through the item union
+     by pointer otherwise); data/ref/lref/expr data items take the same switch arms as bss in add_item */
+  __CPROVER_assume (tn == MIR_import_item || tn == MIR_export_item || tn == MIR_forward_item || tn == MIR_func_item || tn == MIR_proto_item || tn == MIR_bss_item);
   vp_existing.module = &vp_mod; vp_new.module = &vp_mod; vp_new.ref_def = NULL; vp_new.export_p = 0;
   vp_existing.ref_def = NULL; vp_existing.export_p = is_def (te) ? (nondet_int () != 0) : 0;
   set_name (&vp_existing, te, 0); set_name (&vp_new, tn, 1);
@@ -199,6 +199,8 @@ void h_add_item (void) {
     else ENS (r == &vp_new && appended && vp_new.ref_def == &vp_existing && vp_T_mod == &vp_existing && vp_existing.export_p == old_exported, "a forward after the definition refers to it");
   }
   if (have) REACH ("existing"); else REACH ("first");
+  if (tn == MIR_proto_item && have) REACH ("new prototype after an export/forward");
+  if (tn == MIR_bss_item && have) REACH ("new bss after an existing item");
   REACH ("end");
 }
 
